@@ -364,6 +364,34 @@ def main():
         inst_ = {"op": "instantiate", "binds": {"mem": 0, "table": 0, "globals": []}}
         call_ = {"op": "call", "inst": 1, "export": "size", "args": []}
         items.append({"id": "zero%d" % j_, "module": m0, "script": [inst_, call_, {"op": "free", "inst": 1}, dict(inst_, reuse=1), dict(call_, inst=2)]})
+    # several MODULES in one store: a second module imports the table an instance of the first one defines and writes its element segments
+    # into it; calls through that table reach the other module's functions (in both directions), and the tables of the first module's
+    # other instances - created before and after - are their own
+    g_ = lambda k: ["local.get", k]
+    via = [g_(1), g_(0), ["call_indirect", 0, 0], ["end"]]
+    modA = {"types": [{"p": ["i32"], "r": ["i32"]}, {"p": ["i32", "i32"], "r": ["i32"]}],
+            "funcs": [{"type": 0, "locals": [], "body": [g_(0), ["i32.const", b32(100)], ["i32.add"], ["end"]]},
+                      {"type": 0, "locals": [], "body": [g_(0), ["i32.const", b32(200)], ["i32.add"], ["end"]]},
+                      {"type": 1, "locals": [], "body": via}],
+            "table": {"min": 6, "max": 6}, "elems": [{"offset": ["i32.const", b32(1)], "funcs": [0]}, {"offset": ["i32.const", b32(4)], "funcs": [1]}],
+            "exports": [{"name": "via", "kind": "func", "idx": 2}]}
+    modB = {"types": [{"p": ["i64"], "r": ["i64"]}, {"p": ["i32"], "r": ["i32"]}, {"p": ["i32", "i32"], "r": ["i32"]}],
+            "imports": [{"mod": "env", "name": "tab", "kind": "table", "min": 6, "max": None}],
+            "funcs": [{"type": 1, "locals": [], "body": [g_(0), ["i32.const", b32(1000)], ["i32.add"], ["end"]]},
+                      {"type": 1, "locals": [], "body": [g_(0), ["i32.const", b32(2000)], ["i32.add"], ["end"]]},
+                      {"type": 2, "locals": [], "body": [g_(1), g_(0), ["call_indirect", 1, 0], ["end"]]}],
+            "elems": [{"offset": ["i32.const", b32(2)], "funcs": [0]}, {"offset": ["i32.const", b32(4)], "funcs": [1]}],
+            "exports": [{"name": "via", "kind": "func", "idx": 2}]}
+    nobind = {"mem": 0, "table": 0, "globals": []}
+    cv = lambda inst_, i_, x_: {"op": "call", "inst": inst_, "export": "via", "args": [arg("i32", i_), arg("i32", x_)]}
+    items.append({"id": "plug", "module": modA, "modules": [modB],
+                  "script": [{"op": "instantiate", "binds": nobind}, {"op": "instantiate", "binds": nobind},
+                             cv(1, 4, 5), cv(2, 4, 5),
+                             {"op": "instantiate", "mod": 2, "binds": {"mem": 0, "table": 1, "globals": []}},
+                             cv(1, 1, 5), cv(1, 4, 5), cv(1, 2, 5), cv(2, 1, 5), cv(2, 4, 5), cv(3, 1, 7), cv(3, 4, 7), cv(3, 2, 7),
+                             {"op": "instantiate", "binds": nobind}, cv(4, 4, 5), cv(4, 1, 5), cv(1, 4, 6),
+                             # a second plug into the OTHER instance's table, then a child of the first one
+                             {"op": "instantiate", "mod": 2, "binds": {"mem": 0, "table": 2, "globals": []}}, cv(2, 4, 5), cv(2, 2, 5), cv(4, 4, 5), cv(5, 1, 9)]})
     builds = [{"name": "gcc-O1", "cc": "gcc", "cflags": ("-O1",)},
               {"name": "gcc-O1-gnu-ld", "cc": "gcc", "cflags": ("-O1",), "w2c2_opts": ("-m", "-d", "gnu-ld")},
               # a C library that is as unhelpful as the standard allows (see machine.HOSTILE_LIBC)
